@@ -27,10 +27,14 @@ func (nopLogger) Debug(string, ...interface{}) {}
 type recRunner struct {
 	failing map[string]bool
 	trace   []string // task names in execution order (one entry per command)
+	effect  func(task string) // side effect of a task's command on the project files (generator tasks)
 }
 
 func (r *recRunner) Run(cmd string, _ iostream.IOStream, task string, _ []string) (shell.Result, error) {
 	r.trace = append(r.trace, task)
+	if r.effect != nil && !r.failing[task] {
+		r.effect(task)
+	}
 	st := 0
 	if r.failing[task] {
 		st = 1
@@ -50,6 +54,8 @@ var programs = []program{
 	{"file-and-nodeps", "task A(\"a.txt\") {\n echo a\n}\ntask B() {\n echo b\n}\n", []string{"A", "B"}, map[string][]string{"A": {"a.txt"}, "B": {}}},
 	{"glob-and-file", "task A(\"*.txt\") {\n echo a\n}\ntask B(\"b.txt\") {\n echo b\n}\n", []string{"A", "B"}, map[string][]string{"A": {"*.txt"}, "B": {"b.txt"}}},
 	{"task-dep", "task A(\"a.txt\") {\n echo a\n}\ntask B(A, \"b.txt\") {\n echo b\n}\n", []string{"A", "B"}, map[string][]string{"A": {"a.txt"}, "B": {"b.txt"}}},
+	// A is a generator: its command rewrites b.txt from a.txt; B depends on A and on b.txt
+	{"generator", "task A(\"a.txt\") {\n gen\n}\ntask B(A, \"b.txt\") {\n echo b\n}\n", []string{"A", "B"}, map[string][]string{"A": {"a.txt"}, "B": {"b.txt"}}},
 	{"shared-file", "task A(\"a.txt\") {\n echo a\n}\ntask B(\"a.txt\") {\n echo b\n}\n", []string{"A", "B"}, map[string][]string{"A": {"a.txt"}, "B": {"a.txt"}}},
 }
 
@@ -92,7 +98,7 @@ func closure(p program, req []string) []string {
 	set := map[string]bool{}
 	for _, r := range req {
 		set[r] = true
-		if p.name == "task-dep" && r == "B" {
+		if (p.name == "task-dep" || p.name == "generator") && r == "B" {
 			set["A"] = true
 		}
 	}
@@ -144,6 +150,18 @@ func (w *world) apply(op string, props map[string]bool) string {
 		pre := map[string]string{}
 		for _, t := range w.prog.tasks {
 			pre[t] = w.snapshot(t)
+		}
+		// inputs of a task at the moment spok decides about it: for the task behind a generator that
+		// is the state right after the generator's command ran
+		w.runner.effect = nil
+		if w.prog.name == "generator" {
+			w.runner.effect = func(task string) {
+				if task == "A" {
+					b, _ := os.ReadFile(filepath.Join(w.dir, "a.txt"))
+					os.WriteFile(filepath.Join(w.dir, "b.txt"), append([]byte("gen:"), b...), 0o644)
+					pre["B"] = w.snapshot("B")
+				}
+			}
 		}
 		results, err := sf.Run(iostream.Null(), w.runner, force, req...)
 		if err != nil {
